@@ -1,11 +1,253 @@
-import SigmaVerif.Model.Valid
+import SigmaVerif.Lemmas.Valid
+import SigmaVerif.Lemmas.CondParse
+/-!
+# C19 — reference and uniqueness validators, exclusions
+
+Property theorems only; the auxiliary definitions (`Mentions`, `HasSel`, `CT.names`, `members`) and
+all helper lemmas are in `SigmaVerif/Lemmas/Valid.lean`.
+
+1. reference checks are exact (`dangling_detection_iff`, `mem_referenced_iff`,
+   `dangling_selector_iff`, `dangling_selector_iff_selects`) and agree with the converter's
+   post-processing (`referenced_agrees_with_resolve` and its companions)
+2. uniqueness groups are exact, one per value, independent of the rule order
+3. exclusions
+4. the reference issues of a rule do not depend on the order of its detections
+-/
 namespace SigmaVerif.Props.C19
-open SigmaVerif.Valid SigmaVerif.Cond
+open SigmaVerif.Valid SigmaVerif.Cond SigmaVerif.CondSpec SigmaVerif.Lemmas.Valid
+
+/-! ## 1. Reference checks are exact -/
 
 /-- a detection is reported as unused iff no condition refers to it (by name or by a selector
 that selects it) -/
 theorem dangling_detection_iff (dets : List Str) (conds : List PT) (d : Str) :
     d ∈ danglingDetections dets conds ↔ d ∈ dets ∧ ∀ c ∈ conds, d ∉ referenced dets c := by
   simp [danglingDetections, List.mem_filter, List.mem_flatMap]
+
+example : danglingDetections ["sel".toList, "flt".toList, "unused".toList]
+    [.and [.id "sel".toList, .not (.id "flt".toList)]] = ["unused".toList] := by decide
+
+/-- `referenced` lists exactly the names the tree mentions: an identifier node, or a detection of
+the rule matched by the pattern of a selector node -/
+theorem mem_referenced_iff (dets : List Str) (t : PT) (d : Str) :
+    d ∈ referenced dets t ↔ Mentions dets t d :=
+  ⟨mentions_of_mem dets d t, mem_of_mentions dets t d⟩
+
+example : Mentions ["sel1".toList, "flt".toList] (.and [.sel .any "sel*".toList, .id "x".toList])
+    "sel1".toList :=
+  .and (p := .sel .any "sel*".toList) (by simp)
+    (.sel .any _ _ (by simp [selMatches, starMatch]) (by simp))
+
+/-- a selector pattern is reported iff it occurs in some condition of the rule and matches no
+detection of the rule -/
+theorem dangling_selector_iff (dets : List Str) (conds : List PT) (pat : Str) :
+    pat ∈ danglingConditions dets conds ↔
+      ∃ c ∈ conds, HasSel c pat ∧ ∀ d ∈ dets, selMatches pat d = false := by
+  unfold danglingConditions
+  rw [List.mem_eraseDups, List.mem_flatMap]
+  constructor
+  · rintro ⟨c, hc, h⟩
+    exact ⟨c, hc, (mem_danglingSels_iff dets c pat).1 h⟩
+  · rintro ⟨c, hc, h⟩
+    exact ⟨c, hc, (mem_danglingSels_iff dets c pat).2 h⟩
+
+example : danglingConditions ["sel1".toList, "flt".toList]
+    [.and [.sel .any "sel*".toList, .not (.sel .all "filter_*".toList)]]
+    = ["filter_*".toList] := by
+  simp [danglingConditions, danglingSels, danglingSelsL, selMatches, starMatch, List.eraseDups_cons]
+
+/-- the same with the specification's reading of a selector pattern (`selects`, C02): for detection
+names without a line break, a selector is reported iff it selects no detection -/
+theorem dangling_selector_iff_selects (dets : List Str) (hnl : ∀ d ∈ dets, '\n' ∉ d)
+    (conds : List PT) (pat : Str) :
+    pat ∈ danglingConditions dets conds ↔
+      ∃ c ∈ conds, HasSel c pat ∧ ∀ d ∈ dets, selects pat d = false := by
+  rw [dangling_selector_iff]
+  constructor
+  · rintro ⟨c, hc, hs, h⟩
+    exact ⟨c, hc, hs, fun d hd =>
+      by rw [← Lemmas.CondParse.selMatches_eq_selects pat d (hnl d hd)]; exact h d hd⟩
+  · rintro ⟨c, hc, hs, h⟩
+    exact ⟨c, hc, hs, fun d hd =>
+      by rw [Lemmas.CondParse.selMatches_eq_selects pat d (hnl d hd)]; exact h d hd⟩
+
+example : "nope*".toList ∈ danglingConditions ["sel".toList] [.sel .any "nope*".toList] :=
+  (dangling_selector_iff_selects _ (by decide) _ _).2
+    ⟨.sel .any "nope*".toList, by simp, .sel .any _, by simp [selects, globStar]⟩
+
+/-- Agreement with the converter, by construction.  When post-processing succeeds with a tree `c`,
+the detection names occurring in `c` are *literally* the list `referenced` computes (same names,
+same order, same multiplicities).  Stronger than the two inclusions; needs no `Nodup`. -/
+theorem referenced_agrees_with_resolve (dets : List Str) (t : PT) (c : CT)
+    (h : resolve dets t = .ok (some c)) : CT.names c = referenced dets t :=
+  resolve_names dets t (some c) h
+
+example : resolve ["sel1".toList, "sel2".toList, "flt".toList]
+      (.and [.sel .any "sel*".toList, .not (.id "flt".toList)])
+    = .ok (some (.and [.or [.det "sel1".toList, .det "sel2".toList], .not (.det "flt".toList)])) := by
+  simp [resolve, resolveList, selMatches, starMatch]
+
+/-- when the whole condition vanishes (only selectors that match nothing), nothing is referenced -/
+theorem referenced_of_resolve_none (dets : List Str) (t : PT)
+    (h : resolve dets t = .ok none) : referenced dets t = [] :=
+  (resolve_names dets t none h).symm
+
+example : resolve ["sel".toList] (.sel .any "nope*".toList) = .ok none := by
+  simp [resolve, selMatches, starMatch]
+
+/-- post-processing succeeds iff everything the validator counts as referenced is a detection of
+the rule; otherwise it fails on a referenced name that is not defined -/
+theorem resolve_ok_iff (dets : List Str) (t : PT) :
+    (∃ oc, resolve dets t = .ok oc) ↔ ∀ d ∈ referenced dets t, d ∈ dets := by
+  constructor
+  · rintro ⟨oc, h⟩
+    exact resolve_ok_subset dets t oc h
+  · intro hall
+    cases hr : resolve dets t with
+    | ok oc => exact ⟨oc, rfl⟩
+    | undefinedDet n =>
+      have := resolve_undefined dets n t hr
+      exact absurd (hall n this.1) this.2
+
+example : ¬ ∃ oc, resolve ["sel".toList] (.and [.id "sel".toList, .id "typo".toList]) = .ok oc := by
+  rw [resolve_ok_iff]
+  intro h
+  exact absurd (h "typo".toList (by simp [referenced, referencedL])) (by decide)
+
+theorem resolve_undefined_referenced (dets : List Str) (t : PT) (n : Str)
+    (h : resolve dets t = .undefinedDet n) : n ∈ referenced dets t ∧ n ∉ dets :=
+  resolve_undefined dets n t h
+
+example : resolve ["sel".toList] (.not (.id "typo".toList)) = .undefinedDet "typo".toList := by
+  simp [resolve]
+
+/-- the point of the agreement: for a rule whose conditions all post-process to trees (`conv t` is
+the tree of condition `t`), a detection is reported as unused iff it occurs in none of the condition
+trees the converter uses -/
+theorem dangling_detection_iff_names (dets : List Str) (conds : List PT) (conv : PT → CT)
+    (hres : ∀ t ∈ conds, resolve dets t = .ok (some (conv t))) (d : Str) :
+    d ∈ danglingDetections dets conds ↔ d ∈ dets ∧ ∀ t ∈ conds, d ∉ CT.names (conv t) := by
+  rw [dangling_detection_iff]
+  refine and_congr_right (fun _ => forall_congr' (fun t => ?_))
+  constructor
+  · intro hh ht; rw [referenced_agrees_with_resolve dets t _ (hres t ht)]; exact hh ht
+  · intro hh ht; rw [← referenced_agrees_with_resolve dets t _ (hres t ht)]; exact hh ht
+
+example : ∀ t ∈ [PT.id "sel".toList],
+    resolve ["sel".toList, "unused".toList] t = .ok (some ((fun _ => CT.det "sel".toList) t)) := by
+  simp [resolve]
+
+/-! ## 2. Uniqueness groups are exact -/
+
+/-- the group of a value names exactly the rules that carry it, and only values carried by at least
+two rules are reported -/
+theorem groups_exact (keys : List (Option Nat)) (k : Nat) (is : List Nat) :
+    (k, is) ∈ groups keys ↔
+      is = (List.range keys.length).filter (fun i => keys.getD i none == some k) ∧
+      2 ≤ is.length :=
+  mem_groups_iff keys k is
+
+example : groups [some 7, none, some 3, some 7, some 3, some 7, some 1]
+    = [(7, [0, 3, 5]), (3, [2, 4])] := by decide
+
+/-- one issue per value -/
+theorem groups_keys_nodup (keys : List (Option Nat)) : ((groups keys).map (·.1)).Nodup :=
+  groups_keys_nodup_aux keys
+
+example : ((groups [some 7, some 7, some 7, some 7]).map (·.1)) = [7] := by decide
+
+/-- the size of a reported group is the number of rules carrying the value -/
+theorem groups_size (keys : List (Option Nat)) (k : Nat) (is : List Nat)
+    (h : (k, is) ∈ groups keys) : is.length = keys.count (some k) := by
+  obtain ⟨his, _⟩ := (groups_exact keys k is).1 h
+  subst his
+  exact members_length keys k
+
+example : (7, [0, 3, 5]) ∈ groups [some 7, none, some 3, some 7, some 3, some 7] := by decide
+
+/-- a value is reported iff at least two rules carry it -/
+theorem groups_reported_iff (keys : List (Option Nat)) (k : Nat) :
+    (groups keys).any (·.1 == k) = decide (2 ≤ keys.count (some k)) :=
+  groups_any keys k
+
+example : (groups [some 7, none, none, some 3, some 7]).any (·.1 == 3) = false := by decide
+
+/-- which values are reported, and how many rules each group has, does not depend on the order of
+the rules -/
+theorem groups_perm (keys keys' : List (Option Nat)) (h : keys.Perm keys') (k : Nat) :
+    ((groups keys).any (·.1 == k)) = ((groups keys').any (·.1 == k)) ∧
+    ((groups keys).find? (·.1 == k)).map (·.2.length)
+      = ((groups keys').find? (·.1 == k)).map (·.2.length) := by
+  have hc : keys.count (some k) = keys'.count (some k) := h.count_eq _
+  refine ⟨by rw [groups_any, groups_any, hc], ?_⟩
+  rw [groups_find, groups_find, hc]
+  by_cases h2 : 2 ≤ keys'.count (some k)
+  · simp [h2, members_length, hc]
+  · simp [h2]
+
+example : groups [some 3, some 7, some 7, some 3, some 7] = [(3, [0, 3]), (7, [1, 2, 4])] ∧
+    groups [some 7, some 3, some 7, some 3, some 7] = [(7, [0, 2, 4]), (3, [1, 3])] := by decide
+
+/-! ## 3. Exclusions -/
+
+theorem runs_iff (excl : List (Option Nat × Nat)) (ruleId : Option Nat) (v : Nat) :
+    runs excl ruleId v = true ↔ (ruleId, v) ∉ excl := by
+  simp [runs]
+
+example : runs [(some 4, 1)] (some 4) 1 = false ∧ runs [(some 4, 1)] (some 4) 2 = true ∧
+    runs [(some 4, 1)] none 1 = true := by decide
+
+/-- excluding `(r, v)` switches off exactly validator `v` on the rules with id `r` -/
+theorem exclusion_exact (excl : List (Option Nat × Nat)) (r : Option Nat) (v : Nat) :
+    ∀ r' v', runs ((r, v) :: excl) r' v' = (runs excl r' v' && !(r' == r && v' == v)) := by
+  intro r' v'
+  simp only [runs, List.contains_cons, Bool.not_or]
+  rw [Bool.and_comm]
+  rfl
+
+example : runs ((some 4, 1) :: []) (some 4) 1 = false ∧ runs ((some 4, 1) :: []) (some 5) 1 = true :=
+  by decide
+
+/-! ## 4. The reference issues of a rule do not depend on the order of its detections -/
+
+theorem referenced_perm (dets dets' : List Str) (t : PT) (h : dets.Perm dets') :
+    (referenced dets t).Perm (referenced dets' t) :=
+  referenced_perm_aux dets dets' h t
+
+/-- `Perm` cannot be improved to equality: a selector lists its detections in the rule's order -/
+example : referenced ["b".toList, "a".toList] (.sel .any "*".toList) = ["b".toList, "a".toList] ∧
+    referenced ["a".toList, "b".toList] (.sel .any "*".toList) = ["a".toList, "b".toList] := by
+  simp [referenced, selMatches, starMatch]
+
+/-- unused detections: the same detections are reported, in the order the rule lists them -/
+theorem dangling_perm (dets dets' : List Str) (conds : List PT) (h : dets.Perm dets') :
+    (danglingDetections dets conds).Perm (danglingDetections dets' conds) := by
+  unfold danglingDetections
+  have hcongr : dets'.filter (fun d => !(conds.flatMap (referenced dets)).contains d)
+      = dets'.filter (fun d => !(conds.flatMap (referenced dets')).contains d) := by
+    apply List.filter_congr
+    intro d _
+    congr 1
+    rw [Bool.eq_iff_iff, List.contains_iff_mem, List.contains_iff_mem, List.mem_flatMap,
+      List.mem_flatMap]
+    exact ⟨fun ⟨c, hc, hd⟩ => ⟨c, hc, (referenced_perm dets dets' c h).mem_iff.1 hd⟩,
+      fun ⟨c, hc, hd⟩ => ⟨c, hc, (referenced_perm dets dets' c h).mem_iff.2 hd⟩⟩
+  rw [← hcongr]
+  exact h.filter _
+
+example : danglingDetections ["u".toList, "a".toList] [.id "a".toList] = ["u".toList] ∧
+    danglingDetections ["a".toList, "u".toList] [.id "a".toList] = ["u".toList] := by decide
+
+/-- selectors that match nothing: the very same list is reported -/
+theorem dangling_conditions_perm (dets dets' : List Str) (conds : List PT) (h : dets.Perm dets') :
+    danglingConditions dets conds = danglingConditions dets' conds := by
+  unfold danglingConditions
+  have hf : danglingSels dets = danglingSels dets' :=
+    funext (danglingSels_perm_aux dets dets' h)
+  rw [hf]
+
+example : danglingConditions ["b".toList, "a".toList] [.sel .any "c*".toList]
+    = danglingConditions ["a".toList, "b".toList] [.sel .any "c*".toList] :=
+  dangling_conditions_perm _ _ _ (by decide)
 
 end SigmaVerif.Props.C19
